@@ -31,6 +31,9 @@
 (*   u.ids[i]     [set, ts]  registration data of time identity i          *)
 (*   u.trg[j]     [set, exp, log]  event trigger j: expiry block and the   *)
 (*                block of the (single) matching log on the chain, Nil=none*)
+(*   u.gen[s]     how many key generations set s may go through (0: its    *)
+(*                eon never starts, 1: no restart, 2: one restart)         *)
+(* A slot with set = 0 is unused in that universe (never registered).      *)
 (* Tables are the projected database tables (see harness/service Abs).     *)
 (* Eon numbers are static: generation g of set s is eon 2*(g-1)+s with     *)
 (* height 10*eon (start order across sets is irrelevant to every query     *)
@@ -38,8 +41,7 @@
 (***************************************************************************)
 EXTENDS Integers, Sequences, FiniteSets, SequencesExt, FiniteSetsExt, TLC
 
-CONSTANTS NI, NT,          \* identity slots / event trigger slots
-          MaxGen           \* <<g1, g2>>: how many key generations (1 = no restart) each set may go through
+CONSTANTS NI, NT           \* identity slots / event trigger slots
 
 Nil == -1
 Sets == {1, 2}
@@ -173,12 +175,12 @@ SlotDec(st, x) == IF x \in TimeIds THEN st.ids[x].dec ELSE st.trg[x - NI].dec
 (* op = [k, a, b, ids] *)
 Enabled(u, st, op) ==
     CASE op.k = "block" -> TRUE
-      [] op.k = "regi" -> ~st.ids[op.a].reg
-      [] op.k = "regt" -> ~st.trg[op.a].reg
+      [] op.k = "regi" -> ~st.ids[op.a].reg /\ u.ids[op.a].set # 0
+      [] op.k = "regt" -> ~st.trg[op.a].reg /\ u.trg[op.a].set # 0
       [] op.k = "eon" ->  \* shuttermint starts the first eon of a config, or restarts it after a failed DKG
-            \/ EonsOf(st, op.a) = {}
+            \/ EonsOf(st, op.a) = {} /\ u.gen[op.a] >= 1
             \/ /\ EonsOf(st, op.a) # {}
-               /\ GenOf(LatestEon(st, op.a).eon) < MaxGen[op.a]
+               /\ GenOf(LatestEon(st, op.a).eon) < u.gen[op.a]
                /\ [eon |-> LatestEon(st, op.a).eon, ok |-> FALSE] \in st.dkg
       [] op.k = "dkg" -> EonsOf(st, op.a) # {} /\ DkgRows(st, LatestEon(st, op.a).eon) = {}
       [] op.k = "release" ->
